@@ -54,7 +54,8 @@ DEV = {
     "HbWriteUnlocked": ("DevHbWriteUnlocked", "C13", {}),
     "JoinOkEarly": ("DevJoinOkEarly", "C14", {}),
     "RestoreDropsAsg": ("DevRestoreDropsAsg", "C15", {}), "RestoreGenZero": ("DevRestoreGenZero", "C15", {}),
-    "SyncRefusesIdle": ("DevSyncRefusesIdle", "C15", {"subs": ST2}),
+    # both members on the single partition of t2: whoever sorts second (random ids) is idle, whatever the model chose
+    "SyncRefusesIdle": ("DevSyncRefusesIdle", "C15", {"subs": '{{"t2"}}'}),
     "CleanupWriteUnlocked": ("DevCleanupWriteUnlocked", "C15", {}),
     "HbRefresh": ("FixHbRefresh", "C43", {}), "ExpireIgnoresHb": ("DevExpireIgnoresHb", "C43", {}),
     "NoLaggerDrop": ("DevNoLaggerDrop", "C43", {}), "NoExpire": ("DevNoExpire", "C43", {}),
